@@ -4,10 +4,11 @@
 -/
 import AITB.Props.C18c
 namespace AITB.Cassandra
+variable {fl : Flags}
 
 theorem parseModelInfo_append (r1 r2 : List Str) (p : Pre) (acc : List Str) :
-    parseModelInfo (r1 ++ r2) p acc =
-      (parseModelInfo r1 p acc >>= fun (q : Pre × List Str) => parseModelInfo r2 q.1 q.2.reverse) := by
+    parseModelInfo fl (r1 ++ r2) p acc =
+      (parseModelInfo fl r1 p acc >>= fun (q : Pre × List Str) => parseModelInfo fl r2 q.1 q.2.reverse) := by
   induction r1 generalizing p acc with
   | nil => simp [parseModelInfo, pure, Except.pure, bind, Except.bind]
   | cons raw rest ih =>
@@ -23,7 +24,7 @@ theorem parseModelInfo_append (r1 r2 : List Str) (p : Pre) (acc : List Str) :
 
 /-- lines that do not start with `discount` leave the discount alone -/
 theorem parseModelInfo_no_discount (raws : List Str) (p p' : Pre) (acc lines : List Str)
-    (h : parseModelInfo raws p acc = .ok (p', lines))
+    (h : parseModelInfo fl raws p acc = .ok (p', lines))
     (hno : ∀ raw ∈ raws, startsWith (trim raw) kwDiscount = false) : p'.disc = p.disc := by
   induction raws generalizing p acc with
   | nil => simp only [parseModelInfo, pure_ok] at h; injection h with h1 _; rw [h1]
@@ -58,9 +59,9 @@ theorem parseModelInfo_no_discount (raws : List Str) (p p' : Pre) (acc lines : L
 
 /-- a line that starts with `discount` is handled by the discount action (it cannot start with another keyword) -/
 theorem preLine_discount (p : Pre) (l : Str) (h : startsWith l kwDiscount = true) :
-    preLine p l = some (do
+    preLine fl p l = some (do
       let t ← at? (tokenize colon l) 1
-      let d ← stod t
+      let d ← stodS fl t
       pure { p with disc := d }) := by
   have hd : kwDiscount = 'd' :: "iscount".toList := by decide
   have hv : kwValues = 'v' :: "alues".toList := by decide
@@ -83,10 +84,10 @@ theorem preLine_discount (p : Pre) (l : Str) (h : startsWith l kwDiscount = true
 /-- **later preamble lines override earlier ones (discount)**: whatever comes before, if `raw` is the last line
     starting with `discount`, the accepted preamble carries the number written on it -/
 theorem discount_last_wins (r1 r2 : List Str) (raw : Str) (p' : Pre) (lines : List Str)
-    (h : parseModelInfo (r1 ++ raw :: r2) {} [] = .ok (p', lines))
+    (h : parseModelInfo fl (r1 ++ raw :: r2) {} [] = .ok (p', lines))
     (hne : (trim raw).isEmpty = false) (hd : startsWith (trim raw) kwDiscount = true)
     (hno : ∀ x ∈ r2, startsWith (trim x) kwDiscount = false) :
-    ∃ t, at? (tokenize colon (trim raw)) 1 = .ok t ∧ stod t = .ok p'.disc := by
+    ∃ t, at? (tokenize colon (trim raw)) 1 = .ok t ∧ stodS fl t = .ok p'.disc := by
   rw [parseModelInfo_append] at h
   obtain ⟨⟨q, l1⟩, _, h2⟩ := bind_ok.1 h
   simp only [parseModelInfo, hne, Bool.false_eq_true, if_false, preLine_discount q (trim raw) hd] at h2
@@ -146,7 +147,7 @@ theorem buildMap_find (ids : List Str) (hnd : (ids.map trim).Nodup) (i : Nat) (h
 /-- what `extractIDs` returns for a declaration that is not a single number: the name count and `buildMap` -/
 theorem extractIDs_named (line t1 : Str) (h1 : at? (tokenize colon line) 1 = .ok t1)
     (hmany : (tokenize space t1).length ≠ 1) :
-    extractIDs line = .ok ((tokenize space t1).length, buildMap (tokenize space t1)) := by
+    extractIDs fl line = .ok ((tokenize space t1).length, buildMap (tokenize space t1)) := by
   unfold extractIDs
   simp only [h1, bind, Except.bind]
   split
